@@ -90,11 +90,11 @@ CHECKS = {
                 "planted multiset among the best solutions when the planted structure is CN-optimal, every best solution's variants (with "
                 "multiplicity) equal to the simulated haplotypes. Three genuine defects found and repaired by fix: commits; one input class "
                 "(two indels <= 20 bp apart) is a known finding.",
-        "text_more": "A fifth of the samples are genotyped with indelpost=false; the structure clause is decided independently of the copy-number stage's own answer (region depths within a quarter copy of the planted structure). Five genuine defects found through this check were repaired by fix: commits. ",
+        "text_more": "Refinement stage, for EVERY instance (Props/C01Minor): under the decidable clauses PlantedMinor (planted candidates fill the major solution, every considered variant / reference row is observed on exactly the planted carriers, a planted candidate has gene copies at and at most one variant per considered site, rules 5/6 leave room, every read-phase pattern that some slot can explain is attributed to a planted copy agreeing with it at every site) the closed-form planted point satisfies all fourteen constraint families of MinorInst.build - read-phase block included, phase cells proved to be keyed without repetition - and scores 0 (planted_minor_zero), hence every optimum carries every considered variant on exactly the planted number of copies (planted_minor_optima_exact); the clauses are decided by Lean on the real inputs of solve_minor_model (plantedMinorB_iff; tie family planted_minor_premise: where they hold the best refinement reported must score 0). A fifth of the samples are genotyped with indelpost=false; the structure clause is decided independently of the copy-number stage's own answer (region depths within a quarter copy of the planted structure). Five genuine defects found through this check were repaired by fix: commits. ",
         "design_ref": "DESIGN.md section 10.2-10.3 (as built), section 4 (C01), 5 (plan)",
-        "note": "PARTIAL: feasibility of the planted point of the MINOR model and the premise Planted (the pileup of error-free reads is the "
-                "zero-error evidence) are decided per sample by evaluating the Lean definitions on the real stage inputs (translation "
-                "validation), not proved for all samples; read parsing itself is C06/C08, depth normalisation C07, CN optimality is a "
+        "note": "PARTIAL: the premises Planted / PlantedMinor (the pileup of error-free reads is the zero-error evidence of the planted "
+                "copies) are decided per sample by evaluating the Lean definitions on the real stage inputs (translation validation), not "
+                "proved for all samples - what follows from them (feasibility with objective 0, exactness of every optimum, both stages) is proved for all instances; read parsing itself is C06/C08, depth normalisation C07, CN optimality is a "
                 "premise of the property (C03), enumeration / selection C05/C10. Simulation is aligner-free (CIGARs written directly); "
                 "indelpost, pysam trusted. Indels closer than 15 bp to the end of a read run are not planted (no flanking sequence in the "
                 "N-padded reference aldy hands to indelpost).",
@@ -148,11 +148,11 @@ CHECKS = {
                 "repair both sides are non-empty when two or more items were placed. Tie: real estimate_diplotype and "
                 "get_major_diplotype vs the model on multisets of 0-6 copies in all production orders (toy, CYP2D6, CYP2A6, CYP2C19, GSTM1, "
                 "generated genes), get_major_name vs majorName, natsort's key vs natKey on every name; property oracle on every real output.",
-        "text_more": "Oracle clauses: natural order of haplotypes and of the alleles inside them; the deletion allele itself may be among the called copies. ",
+        "text_more": "Two called copies (Props/C11Order): whatever the allele numbers, deletion allele and tandem list, copy 0 and copy 1 end on different haplotypes (diplotype_two_arrangement) and the names shown do not depend on the production order (diplotype_two_order_independent; the natural-sort order is asymmetric for all keys - keyLt_asymm; hypothesis 'different names have different keys' decided per input by the driver). Oracle clauses: natural order of haplotypes and of the alleles inside them; the deletion allele itself may be among the called copies. ",
         "design_ref": "DESIGN.md section 10.2-10.3 (as built), section 4 (C11) (plan)",
         "note": "The partition clause is proved end to end under the hypothesis that a catalogued tandem pairs two different allele numbers (for "
                 "a pair (x, x) the code deletes two list entries per emitted pair or raises IndexError; no shipped database has one). Tandem "
-                "adjacency and order-independence for n <= 2 are decided by the correspondence run and the oracle. Order clauses rest on "
+                "adjacency is decided by the correspondence run and the oracle; order-independence for two copies is a theorem (C11Order), for one copy there is one order. Order clauses rest on "
                 "natsort (key compared on every name).",
         "technique": "Lean 4 proof (list permutations by induction) + exhaustive-order differential correspondence with estimate_diplotype",
     },
@@ -267,7 +267,7 @@ CHECKS = {
                 "Ties on every solve_minor_model call of the real estimate_minor: captured CBC model == MinorInst.build; returned alleles == "
                 "readOut of the solver's binaries; returned score == reported objective; oracle with the property's clauses and exhaustive "
                 "optimality on small instances.",
-        "text_more": "Two genuine defects repaired by fix: commits (reference row at multi-allelic sites, candidate order). The clause 'every carried variant has supporting filtered reads' is decided on instances with a variant between the filter thresholds of the structure's copy count and of the copies its site really has. ",
+        "text_more": "Score (Props/C04Score): at every point the objective equals error helpers + minor_miss x dropped definition variants + minor_add x (1 + k/1e6) per set add selector + minor_add/2 x novel-core indicators + minor_phase x cnt x (agreeing selectors missed + disagreeing selectors hit) per phase cell (minor_score_closed_form), and at feasible points each summand is the indicator its name says (minor_dropped_term, minor_vnewor_exact, minor_phase_terms; the selectors of a phase cell are keep / add selectors of the cell's slot). Two genuine defects repaired by fix: commits (reference row at multi-allelic sites, candidate order). The clause 'every carried variant has supporting filtered reads' is decided on instances with a variant between the filter thresholds of the structure's copy count and of the copies its site really has. ",
         "design_ref": "DESIGN.md section 10.2-10.3 (as built), section 4 (C04), 3.2 (plan)",
         "note": "Optimality = C05 Run theorems + exhaustive oracle on small instances (tie-breaker epsilon <= minor_add*#selectors/1e6 allowed); "
                 "'one variant per site' after the homozygous post-processing is checked by the oracle on every real output (no violation seen), "
